@@ -98,7 +98,7 @@ def timed(order, r=None, gaps=None):
 def run_system(fmt, k, events):
     """interleaved run: k real instances, one shared queue, one virtual clock. returns per-connection traces + queue log"""
     q = impl.ListQueue()
-    conns = [impl.Conn(fmt=fmt, queue=q, timeout=TIMEOUT, peer=("10.0.0.%d" % (i + 1), 4000 + i)) for i in range(k)]
+    conns = [impl.Conn(fmt=fmt, queue=q, timeout=TIMEOUT, peer=("10.0.0.%d" % (1 if SAME_HOST[0] else i + 1), 4000 + i)) for i in range(k)]
     traces = [[] for _ in range(k)]
     qlog = []      # (conn, item) in queue order
     for c, e in events:
@@ -137,7 +137,7 @@ def masked(trace):
 
 def run_alone(fmt, events, peer_i=0):
     q = impl.ListQueue()
-    cn = impl.Conn(fmt=fmt, queue=q, timeout=TIMEOUT, peer=("10.0.0.%d" % (peer_i + 1), 4000 + peer_i))
+    cn = impl.Conn(fmt=fmt, queue=q, timeout=TIMEOUT, peer=("10.0.0.%d" % (1 if SAME_HOST[0] else peer_i + 1), 4000 + peer_i))
     trace = []
     for e in events:
         for f in cn.loop.advance(e[1]):
@@ -149,7 +149,12 @@ def run_alone(fmt, events, peer_i=0):
     return trace, q.items
 
 
+SAME_HOST = [False]       # connections of one host (analysers behind one serial converter) or of different hosts
+
+
 def check_case(stream, fmt, k, events, ctx, meta):
+    SAME_HOST[0] = len(events) % 2 == 1
+    stream.count("same host" if SAME_HOST[0] else "different hosts")
     horizon = max(e[1][1] for e in events) + TIMEOUT + 5 if events else 0
     events = list(events) + [(c, ("i", horizon)) for c in range(k)]
     case = {"format": fmt, "connections": k, "timeout": TIMEOUT,
